@@ -1545,11 +1545,36 @@ class ObjectDomain(LazyGenerators, EffectDomain):
             return out
         if d == "zip" and call.args and not call.keywords and not any(isinstance(a, ast.Starred) for a in call.args):
             out = []
-            for r in interp._forced(interp.eval_list(list(call.args), st, fr), fr):
+            settled = []
+            for r in interp.eval_list(list(call.args), st, fr):
+                if r.kind == "exc":
+                    settled.append(r)
+                    continue
+                # (iterators handed to zip are consumed here, at once -- for finite ones consumed by a loop that is the same thing; endless ones stay)
+                cur = [((), r.state)]
+                for v in r.value:
+                    nxt = []
+                    for acc, s_ in cur:
+                        got = None if isinstance(v, tuple) and v[:1] in (("repeat",), ("itercount",), ("calliter",)) else self.force_sequence(interp, v, s_, fr)
+                        if got is None:
+                            nxt.append((acc + (v,), s_))
+                            continue
+                        for g in got:
+                            if g.kind == "exc":
+                                settled.append(g)
+                            else:
+                                nxt.append((acc + (g.value,), g.state))
+                    cur = nxt
+                settled.extend(val(acc, s_) for acc, s_ in cur)
+            for r in settled:
                 if r.kind == "exc":
                     out.append(r)
                     continue
                 seqs = [interp._exact_elements(v) for v in r.value]
+                finite = [len(x) for x in seqs if x is not None]
+                if finite:
+                    # zip stops at its shortest argument: an endless repeat(x) gives as many x as that
+                    seqs = [x if x is not None else ([v[1]] * min(finite) if isinstance(v, tuple) and v[:1] == ("repeat",) and len(v) == 2 else None) for x, v in zip(seqs, r.value)]
                 if any(x is None for x in seqs):
                     out.append(val(TOP, r.state))
                 else:
